@@ -111,10 +111,12 @@ func c13(c *Ctx) {
 	roots := corpusRoots()
 	var traceMu sync.Mutex
 	var timerStarts []int64
+	var timerEvents, timedSearches int // events seen / timed searches started in this loop (under traceMu)
 	search.VerifTraceHook = func(ev string, a, b int64) {
 		if ev == "timer-start" {
 			traceMu.Lock()
 			timerStarts = append(timerStarts, b)
+			timerEvents++
 			traceMu.Unlock()
 		}
 	}
@@ -136,15 +138,21 @@ func c13(c *Ctx) {
 			continue
 		}
 		restoreSearchCfg()
+		cfgDesc := "default"
 		if r.Chance(0.3) {
-			applyCfgMask(searchCfgMask(r.U64()))
+			// stand-pat stays on: without it a depth-limited search is a full capture search at
+			// every leaf and can run for hours on a busy middlegame (seen in the thorough tier);
+			// C05 exercises that switch under a node cap
+			cfgDesc = applyCfgMask(searchCfgMask(r.U64()) | 1<<1)
 		}
 		if r.Chance(0.7) {
 			s.NewGame()
+			cfgDesc += " newgame"
 		}
+		rep.Begin("config " + cfgDesc)
 		fen := b.FEN()
 		p := engPos(fen)
-		payload := map[string]interface{}{"fen": fen}
+		payload := map[string]interface{}{"fen": fen, "config": cfgDesc}
 		drv.Reset()
 		switch i % 5 {
 		case 0: // depth
@@ -237,6 +245,9 @@ func c13(c *Ctx) {
 			mt := time.Duration(10+r.Intn(120)) * time.Millisecond
 			run := func() (time.Duration, time.Duration, string) {
 				t0 := time.Now()
+				traceMu.Lock()
+				timedSearches++
+				traceMu.Unlock()
 				s.StartSearch(*engPos(fen), search.Limits{TimeControl: true, MoveTime: mt})
 				s.WaitWhileSearching()
 				return time.Since(t0), mt, fen
@@ -253,8 +264,26 @@ func c13(c *Ctx) {
 			T := time.Duration(300+r.Intn(3000)) * time.Millisecond
 			sl := search.Limits{TimeControl: true, WhiteTime: T, BlackTime: T, WhiteInc: time.Duration(r.Intn(30)) * time.Millisecond, BlackInc: time.Duration(r.Intn(30)) * time.Millisecond, MovesToGo: []int{0, 0, 10, 40}[r.Intn(4)]}
 			want := s.VerifSetupTimeControl(p, &sl)
+			// every earlier timed search of this loop started one timer goroutine, which may be
+			// scheduled long after its search has ended: let them report before this search
+			// begins, otherwise their events would be counted here
+			settled := false
+			for w := 0; w < 2000; w++ {
+				traceMu.Lock()
+				settled = timerEvents >= timedSearches
+				traceMu.Unlock()
+				if settled {
+					break
+				}
+				time.Sleep(5 * time.Millisecond)
+			}
+			if !settled {
+				rep.Inconclusive(fmt.Sprintf("timer goroutines of earlier searches did not report within 10 s (%d of %d): clock case skipped", timerEvents, timedSearches))
+				break
+			}
 			traceMu.Lock()
 			timerStarts = nil
+			timedSearches++
 			traceMu.Unlock()
 			rep.Begin(fmt.Sprintf("clock %+v %s", sl, fen))
 			t0 := time.Now()
@@ -284,6 +313,9 @@ func c13(c *Ctx) {
 				fenC, slC := fen, sl
 				slow = append(slow, func() (time.Duration, time.Duration, string) {
 					t0 := time.Now()
+					traceMu.Lock()
+					timedSearches++
+					traceMu.Unlock()
 					s.StartSearch(*engPos(fenC), slC)
 					s.WaitWhileSearching()
 					return time.Since(t0), want, fenC
